@@ -31,7 +31,7 @@ func (c17) Info() core.Info {
 		ID:    "C17",
 		Title: "Reported error positions lie inside the query and render with an aligned caret",
 		Level: "exploration",
-		Rule: "every single-token edit (delete, duplicate, replace by each of 26 alphabet tokens) at every token position of a corpus of valid statements of all kinds and of lengths 30/69/70/71/150 bytes (so that faults fall early and late, inside and outside the 70-character window), plus statements that fail at execution; each erroneous variant with leading blanks {0,1,3} x trailing blanks {0,2} x padding {0,7,12}. " +
+		Rule: "every single-token edit (delete, duplicate, replace by each of 26 alphabet tokens) at every token position of a corpus of valid statements of all kinds and of lengths 30/69/70/71/150 bytes (so that faults fall early and late, inside and outside the 70-character window), plus statements that fail at execution; each erroneous variant with leading white space {none, 1 and 3 blanks, a tab, a line feed + 2 blanks} x trailing white space {none, 2 blanks, a line feed, blank + tab} x padding {0,7,12}; the statement corpus also holds a statement with tabs between its tokens (line feeds inside a statement are not used: a caret line cannot stand under a character of a text that spans several lines). " +
 			"Oracle: Pos is -1 or 0 <= Pos < len(query); for errors from parsing / checking Pos is 0 or the start offset of a token (reference lexer of C16); after BindQuery the first line shows a stretch of the (trimmed) query that contains the offset and the caret of the second line stands, after the padding, under the character at that offset (at the end of the text for -1). Every error is bound and rendered twice (same text, same padding): both renderings must satisfy this and the position carried after binding must still be such an offset. Rendering must not panic. Non-trivial: an error with a position inside a query longer than the window or with leading blanks. Distinct: (query text, padding).",
 		Assumptions: []string{"errors that are not positional (no QueryBinder) are skipped", "the first line is printed after a prefix of `padding` characters, as in the README example"},
 	}
@@ -71,6 +71,7 @@ func c17Corpus() []string {
 		"select key, value where int(value) / (strlen(key) - 1) > 1",
 		"select key where value between 'b' and 'a'",
 		"select key, l2_distance(list(1, 2), split(value, ',')) where true",
+		"select key,\tvalue where\tkey ^= 'k' &\tint(value) > 1 order by\tkey desc",
 		long(30), long(69), long(70), long(71), long(150),
 		long2(80), long2(150),
 	}
@@ -122,10 +123,16 @@ func (c17) Units(t core.Tier) int { return len(c17Corpus()) }
 func (c17) RunUnit(t core.Tier, u int, r *core.Reporter) {
 	base := c17Corpus()[u]
 	for _, e := range c17Edits(base) {
-		for _, lead := range []int{0, 1, 3} {
-			for _, trail := range []int{0, 2} {
-				q := strings.Repeat(" ", lead) + e + strings.Repeat(" ", trail)
+		for li, lead := range []string{"", " ", "   ", "\t", "\n  "} {
+			for ti, trail := range []string{"", "  ", "\n", " \t"} {
+				if li >= 3 && ti >= 2 && (li+ti)%2 == 1 {
+					continue // (half of the tab / line-feed combinations)
+				}
+				q := lead + e + trail
 				for _, pad := range []int{0, 7, 12} {
+					if (li >= 3 || ti >= 2) && pad == 12 {
+						continue
+					}
 					c := c17Case{Query: q, Padding: pad}
 					if !r.Begin(func() *core.Failure {
 						return &core.Failure{Property: "C17", Leg: "error-position", Case: c.text(), Data: core.MustJSON(c)}
